@@ -785,6 +785,14 @@ class Analysis:
                     off = self._idx_off(e.c[1], p.cursor)
                     if off is not None:
                         out.append((pi, off + 1, None))
+                elif e.k == "DeclStmt" and len(e.get("decls", [])) == 1 and e.c and e.c[0] is not None:
+                    # T *q = buf + cursor: q's own index pair (j, n) in this function makes n elements
+                    # behind buf + cursor an access at this point
+                    off = self._buf_plus_idx(e.c[0], p.cursor)
+                    if off is not None:
+                        lim = self._derived_extent("%s#%s" % (e.get("decls")[0]["n"], e.get("decls")[0]["d"]), e, pi)
+                        if lim is not None:
+                            out.append((pi, off, self.term(lim)))
                 elif e.k == "CallExpr" and e.callee:
                     args = e.args()
                     if e.callee in WIDTH_FNS and args:
@@ -801,6 +809,25 @@ class Analysis:
                                 x = x.c[0].strip_casts()
                             esz = pointee_size(x.t if x is not None else "") or 1
                             out.append((pi, off + (width + esz - 1) // esz, None))
+                    elif resolve(self.P, e.callee, self.fn) not in (None, self.fn):
+                        # a helper of the program that touches at most args[li] elements behind args[ai]
+                        g = resolve(self.P, e.callee, self.fn)
+                        ext = param_extents(self.P, g)
+                        for ai, li in sorted(ext.items()):
+                            if ai >= len(args) or li >= len(args):
+                                continue
+                            off = self._buf_plus_idx(args[ai], p.cursor)
+                            if off is None or not self._same_pointee(args[ai], g.params[ai]):
+                                continue
+                            n = args[li]
+                            nx = n.strip_casts()
+                            if off == 0 and nx.k == "BinaryOperator" and nx.op == "-" and \
+                                    lvalue_text(nx.c[0]) == p.limit and lvalue_text(nx.c[1]) == p.cursor:
+                                continue    # exactly the remaining elements
+                            if n.cv is not None:
+                                out.append((pi, off + n.cv, None))
+                            else:
+                                out.append((pi, off, self.term(n)))
                     elif e.callee in ("memcpy", "memmove") and len(args) >= 3:
                         for ai in (0, 1):
                             off = self._buf_plus_idx(args[ai], p.cursor)
@@ -813,6 +840,77 @@ class Analysis:
                                 else:
                                     out.append((pi, off, self.term(n)))
         return out
+
+    def _derived_extent(self, q, decl, pi):
+        """The limit node n of the one index pair (j, n) every use of the never-modified local
+        pointer q goes through (q[j], q + j), provided n only changes before q is derived."""
+        if not self._never_modified(q):
+            return None
+        uses = [x for x in self.fn.body.walk() if x.k == "DeclRefExpr" and lvalue_text(x) == q]
+        if not uses:
+            return None
+        limits = {}
+        for u in uses:
+            par = u.parent
+            while par is not None and par.k in ("ParenExpr", "ImplicitCastExpr", "CStyleCastExpr"):
+                par = par.parent
+            if par is None or not ((par.k == "ArraySubscriptExpr" and par.c[0].strip_casts() is u) or
+                                   (par.k == "BinaryOperator" and par.op == "+" and par.c[0].strip_casts() is u)):
+                return None
+            j = par.c[1].strip_casts()
+            if j.k != "DeclRefExpr":
+                return None
+            jt = lvalue_text(j)
+            width = 1
+            if par.k == "BinaryOperator":
+                # q + j handed to a vector store/load: its width in elements
+                call = par.parent
+                while call is not None and call.k in ("ParenExpr", "ImplicitCastExpr", "CStyleCastExpr"):
+                    call = call.parent
+                if call is None or call.k != "CallExpr" or not (call.callee or "").startswith("_mm") or \
+                        not ("storeu" in call.callee or "loadu" in call.callee):
+                    return None
+                from ..rules.skeleton import pointee_size
+                esz = pointee_size(u.t or "") or 1
+                bits = 64 if call.callee.startswith("_mm512") else 32 if call.callee.startswith("_mm256") else 16
+                width = (bits + esz - 1) // esz
+            # the enclosing loop condition bounds j: j < N (width 1) or j + w <= N
+            lp = par.parent
+            N = None
+            while lp is not None and N is None:
+                if lp.k in ("ForStmt", "WhileStmt"):
+                    c = (lp.c[2] if lp.k == "ForStmt" else lp.c[0])
+                    c = c.strip() if c is not None else None
+                    if c is not None and c.k == "BinaryOperator" and c.op in ("<", "<="):
+                        l = c.c[0].strip_casts()
+                        if c.op == "<" and lvalue_text(l) == jt and width == 1:
+                            N = c.c[1]
+                        elif l.k == "BinaryOperator" and l.op == "+" and lvalue_text(l.c[0]) == jt and \
+                                l.c[1].cv is not None and ((c.op == "<=" and l.c[1].cv >= width) or
+                                                           (c.op == "<" and l.c[1].cv >= width - 1)):
+                            N = c.c[1]
+                lp = lp.parent
+            if N is None or lvalue_text(N) is None:
+                return None
+            limits[lvalue_text(N)] = N
+        if len(limits) != 1:
+            return None
+        lt, limnode = next(iter(limits.items()))
+        for x in self.fn.body.walk():
+            if (is_assign(x) or (x.k == "UnaryOperator" and x.op in ("++", "--"))) and \
+                    lvalue_text(x.c[0]) == lt and (x.l or 0) > (decl.l or 0):
+                return None
+        return limnode
+
+    def _same_pointee(self, a, param):
+        from ..rules.skeleton import pointee_size
+        x = a.strip_casts()
+        while x is not None and x.k == "BinaryOperator" and x.op == "+":
+            x = x.c[0].strip_casts()
+        if x is None:
+            return False
+        sa, sb = pointee_size(x.t or ""), pointee_size(param.get("t") or "")
+        return sa is not None and sa == sb
 
     def _byte_ptr(self, a):
         x = a.strip_casts()
@@ -871,6 +969,71 @@ class Analysis:
                 k = f.get(kt)
                 proven = k is not None and k >= kc
             self.reads.append((e, self.pairs[pi], kc, kt, proven, dict(f)))
+
+
+_pe_cache = {}
+_pe_busy = set()
+
+
+def resolve(P, name, near=None):
+    """The definition a direct call to `name` reaches: the one in the caller's file when there are
+    several (static helpers), else the only one."""
+    cands = P.by_name.get(name, [])
+    if near is not None:
+        same = [f for f in cands if f.file == near.file]
+        if same:
+            return same[0]
+    return cands[0] if len(cands) == 1 else None
+
+
+def param_extents(P, callee):
+    """{pointer parameter index: length parameter index} of a helper of the program: every use of
+    the pointer parameter is an access this engine proves inside a (cursor, limit) pair of the
+    helper whose limit is that never-modified length parameter - so the helper touches at most
+    `length` elements behind the pointer it is given."""
+    fn = resolve(P, callee) if isinstance(callee, str) else callee
+    if fn is None or fn.cfg is None:
+        return {}
+    k = (id(P), fn.name, fn.file)
+    if k in _pe_cache:
+        return _pe_cache[k]
+    if k in _pe_busy:
+        return {}
+    _pe_busy.add(k)
+    out = {}
+    try:
+        pairs = find_pairs(fn)
+        if pairs:
+            a = Analysis(P, fn, pairs)
+            reads = a.run()
+            names = ["%s#%s" % (q["n"], q.get("d")) for q in fn.params]
+            for ai, q in enumerate(fn.params):
+                if "*" not in (q.get("t") or ""):
+                    continue
+                qn = names[ai]
+                if not a._never_modified(qn):
+                    continue
+                occ = set(x.i for x in fn.body.walk() if x.k == "DeclRefExpr" and lvalue_text(x) == qn)
+                if not occ:
+                    continue
+                covered = set()
+                limits = set()
+                ok = True
+                for e, pr, kc, kt, proven, facts in reads:
+                    inside = set(x.i for x in e.walk() if x.k == "DeclRefExpr" and lvalue_text(x) == qn)
+                    if not inside:
+                        continue
+                    covered |= inside
+                    limits.add(pr.limit)
+                    ok = ok and proven
+                if ok and covered == occ and len(limits) == 1:
+                    L = next(iter(limits))
+                    if L in names and a._never_modified(L):
+                        out[ai] = names.index(L)
+    finally:
+        _pe_busy.discard(k)
+    _pe_cache[k] = out
+    return out
 
 
 def analyse(P, fn, pairs=None):
